@@ -225,6 +225,122 @@ def work_dec(case):
     return out, eq
 
 
+# ------------------------------------------------------------------------------------------------------------
+# clusters assembled by the library's own factory (BoboSetupSimple: its identifier generators, its wiring); replication
+# notes are handed over between inputs; everything happens within one second of the clock
+FACTORY_STREAMS = [["a1", "a2", "b"], ["a1", "b", "a2", "b"], ["a1", "a2", "a3", "b"], ["a1", "b"], ["a1", "a2", "b", "a3", "b"]]
+
+
+def factory_case(stream, route, crash=None):
+    """crash: (index in the stream, instance lost from then on) or None.  Returns a failure dict or None."""
+    import bobocep.cep.gen.event_id as gm
+    from bobocep.cep.action.action import BoboAction
+    from bobocep.cep.action.handler import BoboActionHandlerBlocking
+    from bobocep.cep.engine.decider.pubsub import BoboDeciderSubscriber
+    from bobocep.cep.engine.producer.pubsub import BoboProducerSubscriber
+    from bobocep.cep.phenom.pattern.builder import BoboPatternBuilder
+    from bobocep.cep.phenom.phenom import BoboPhenomenon
+    from bobocep.setup.simple import BoboSetupSimple
+
+    class Act(BoboAction):
+        def __init__(self, log):
+            super().__init__(name="act")
+            self.log = log
+
+        def execute(self, event):
+            self.log.append(tuple(e.data for e in event.history.all_events()))
+            return True, None
+
+    class Node(BoboDeciderSubscriber, BoboProducerSubscriber):
+        def __init__(self, k, execs):
+            self.k, self.notes, self.complex, self.error = k, [], [], None
+            pat = BoboPatternBuilder("ab").followed_by(lambda e, h: str(e.data).startswith("a")) \
+                                          .followed_by(lambda e, h: e.data == "b").generate()
+            ph = BoboPhenomenon(name="ph", patterns=[pat], action=Act(execs))
+            self.engine = BoboSetupSimple(phenomena=[ph], handler=BoboActionHandlerBlocking(), urn="dev%d" % k).generate()
+            self.engine.decider.subscribe(self)
+            self.engine.producer.subscribe(self)
+
+        def on_decider_update(self, completed, halted, updated, local):
+            if local:
+                self.notes.append((list(completed), list(halted), list(updated)))
+
+        def on_producer_update(self, event, local):
+            self.complex.append(tuple(e.data for e in event.history.all_events()))
+
+        def settle(self):
+            try:
+                for _ in range(6):
+                    self.engine.update()
+            except Exception as ex:     # noqa
+                self.error = self.error or "%s: %s" % (type(ex).__name__, ex)
+
+    def cluster(n, route_, crash_):
+        execs = []
+        nodes = [Node(k, execs) for k in range(n)]
+        live = [True] * n
+        for i, d in enumerate(stream):
+            if crash_ and crash_[0] == i:
+                live[crash_[1]] = False
+            k = route_[i]
+            if not live[k]:
+                k = next(j for j in range(n) if live[j])
+            nodes[k].engine.receiver.add_data(d)
+            nodes[k].settle()
+            for src in nodes:           # replication messages are delivered between consecutive inputs
+                notes, src.notes = src.notes, []
+                for c, h, u in notes:
+                    for dst in nodes:
+                        if dst is not src and live[dst.k]:
+                            try:
+                                dst.engine.decider.on_distributed_update(SC.wire_copy(c), SC.wire_copy(h), SC.wire_copy(u))
+                            except Exception as ex:     # noqa
+                                dst.error = dst.error or "%s: %s" % (type(ex).__name__, ex)
+                            dst.settle()
+        return nodes, live, execs
+    old = gm.time
+    gm.time = lambda: 1700000000
+    try:
+        single, _, sexec = cluster(1, [0] * len(stream), None)
+        nodes, live, execs = cluster(max(route) + 1, route, crash)
+    finally:
+        gm.time = old
+    want = sorted(single[0].complex)
+    for nd in nodes:
+        if not live[nd.k]:
+            continue
+        if nd.error:
+            return dict(signature="factory-cluster-instance-raises", detail=None,
+                        what="cluster of BoboSetupSimple engines, stream %r routed %r: instance %d raised %s" % (stream, route, nd.k, nd.error))
+        if sorted(nd.complex) != want:
+            return dict(signature="factory-cluster-differs-from-single-engine", detail=None,
+                        what="cluster of BoboSetupSimple engines, stream %r routed %r%s: instance %d reports %r, one engine reports %r"
+                             % (stream, route, " crash %r" % (crash,) if crash else "", nd.k, sorted(nd.complex), want))
+    if not crash and sorted(execs) != sorted(sexec):
+        return dict(signature="factory-cluster-action-count", detail=None,
+                    what="cluster of BoboSetupSimple engines, stream %r routed %r: actions executed for %r, one engine executes for %r"
+                         % (stream, route, sorted(execs), sorted(sexec)))
+    return None
+
+
+def factory_half(res):
+    n = 0
+    for stream in FACTORY_STREAMS:
+        for route in itertools.product((0, 1), repeat=len(stream)):
+            if len(set(route)) < 2:
+                continue
+            crashes = [None] + [(i, k) for i in range(1, len(stream)) for k in (0, 1)]
+            for crash in crashes:
+                n += 1
+                f = factory_case(stream, list(route), crash)
+                res.note_case(("factory", tuple(stream), route, crash), True)
+                if f:
+                    res.failures.append(dict(signature=f["signature"], what=f["what"], detail=None,
+                                             case=dict(factory=True, fstream=stream, froute=list(route), fcrash=crash)))
+                    return n
+    return n
+
+
 def run(ctx, res):
     scen = gen_scenarios(ctx)
     results = pmap(work, scen, chunksize=10)
@@ -237,6 +353,7 @@ def run(ctx, res):
         if fail:
             res.failures.append(dict(signature=fail["signature"], what=fail["what"], case=sc, detail=fail["detail"]))
     res.failures.sort(key=lambda f: len(repr(f["case"])))
+    res.extra["factory_cluster_scenarios"] = factory_half(res)
     res.samples = [scen[1], scen[-1]]
     # correspondence with Model/Cluster.v at decider level, including the premise sync_step (tables equal)
     rng = ctx.rng
@@ -273,6 +390,12 @@ def run(ctx, res):
 def replay(obj):
     import pC12
     case = obj.get("case")
+    if case and case.get("factory"):
+        f = factory_case(case["fstream"], case["froute"], tuple(case["fcrash"]) if case.get("fcrash") else None)
+        print("cluster of BoboSetupSimple engines (pattern: a* then b), stream %r, routed to instances %r, crash %r"
+              % (case["fstream"], case["froute"], case.get("fcrash")))
+        print("oracle  :", f["what"] if f else "every live instance reports what one engine fed the whole stream reports")
+        return 1 if f else 0
     if not case or "stream" not in case:
         print(obj)
         return 0
